@@ -10,6 +10,7 @@ import numpy as np
 
 from .. import common as C
 from .. import impl
+from .. import robust
 from .. import solver
 
 PARTIAL = [
@@ -47,6 +48,8 @@ def _valid_snapshot(res, m, s, N, strain, rep, regime):
 
 def run(ctx, res):
     rng = np.random.default_rng(ctx["seed"] + 101)
+    # history- and representation-robustness scenarios (see harness/robust.py)
+    robust.run(res, np.random.default_rng(ctx["seed"] + 77), ctx, "C01")
     M = impl._minerals
     n_sc = 24 if not ctx["thorough"] else 168
     res.rule = ("update histories: (phase,fabric) x accepted regime {0,1,4,6,7} x L(t,x) family (incl. non-zero trace, vorticity, time/space "
